@@ -48,6 +48,10 @@ func genRecv(g *Gen, n int) {
 				if g.R.Intn(5) == 0 {
 					lines = append(lines, fmt.Sprintf("recv.loadfail %d", 1+g.R.Intn(3)))
 				}
+				if g.R.Intn(4) == 0 {
+					// a file of another kind whose name sorts after the newest snapshot
+					lines = append(lines, fmt.Sprintf("recv.putother %s %d", insts[g.R.Intn(ninst)], ts+1))
+				}
 				inc := "0"
 				if first {
 					inc = "1"
